@@ -5,6 +5,7 @@ package props
 import (
 	"errors"
 	"fmt"
+	"math/big"
 	"strings"
 	"testing"
 
@@ -240,7 +241,7 @@ func propC14Args(t *rapid.T) {
 	term := new(int64)
 	s := zap.New(core, zap.WithFatalHook(countHook{term}), zap.WithPanicHook(countHook{term})).Sugar()
 	lvl := rapid.SampledFrom(c14Levels).Draw(t, "level")
-	mode := rapid.SampledFrom([]string{"w", "logw", "with", "withlazy", "with+w"}).Draw(t, "mode")
+	mode := rapid.SampledFrom([]string{"w", "logw", "with", "withlazy", "with+w", "withlazy-delayed", "with-delayed"}).Draw(t, "mode")
 	msg := genStr().Draw(t, "msg")
 	wantMain := wantFields
 	func() {
@@ -258,6 +259,20 @@ func propC14Args(t *rapid.T) {
 			c14CallW(s.With(args...), lvl, false, msg, nil)
 		case "withlazy":
 			c14CallW(s.WithLazy(args...), lvl, true, msg, nil)
+		case "withlazy-delayed", "with-delayed":
+			// derive, then run unrelated sugared calls before the child is first used
+			var child *zap.SugaredLogger
+			if mode == "with-delayed" {
+				child = s.With(args...)
+			} else {
+				child = s.WithLazy(args...)
+			}
+			noise := zap.New(zapcore.NewNopCore()).Sugar()
+			noise.Infow("noise", "component", "cache", "hits", 7, "x", 1.5)
+			_ = noise.With("a", 1, "b", "two", "c", 3.0)
+			_ = noise.WithLazy("d", 4, "e", "five")
+			noise.WithLazy("f", 6).Errorw("noise2", "g", 7)
+			c14CallW(child, lvl, false, msg, nil)
 		case "with+w":
 			// context via With, the same list again at the call site
 			c14CallW(s.With(args...), lvl, false, msg, args)
@@ -375,8 +390,33 @@ func renderArgs(as []c14Arg) string {
 
 var c14Templates = []string{"", "x", "%v", "%d %s", "%%", "%!", "a%vb%vc", "%s", "%+v|%#v", "%5.2f", "%[2]v %[1]v", "%", "100%", "%z", "\n%v\n", "%v %v %v %v"}
 
+// fmtErr / fmtStringer format differently from what Error()/String() return.
+type fmtErr struct{ s string }
+
+func (e fmtErr) Error() string              { return e.s }
+func (e fmtErr) Format(f fmt.State, c rune) { fmt.Fprintf(f, "formatted(%s)", e.s) }
+
+type fmtStringer struct{ s string }
+
+func (e fmtStringer) String() string             { return e.s }
+func (e fmtStringer) Format(f fmt.State, c rune) { fmt.Fprintf(f, "formatted<%s>", e.s) }
+
 func genFmtArg(t *rapid.T) any {
-	switch rapid.IntRange(0, 8).Draw(t, "fmtArgKind") {
+	switch rapid.IntRange(0, 15).Draw(t, "fmtArgKind") {
+	case 9:
+		return (*ptrErr)(nil) // typed nil pointer error: fmt prints <nil>
+	case 10:
+		return (*ptrStringer)(nil)
+	case 11:
+		return fmtErr{"dial failed"}
+	case 12:
+		return fmtStringer{"str"}
+	case 13:
+		return big.NewFloat(1.0 / 3)
+	case 14:
+		return verboseErr{"verbose"}
+	case 15:
+		return &ptrErr{"ptr"}
 	case 0:
 		return genStr().Draw(t, "s")
 	case 1:
@@ -402,7 +442,7 @@ func propC14Messages(t *rapid.T) {
 	core, logs := observer.New(zapcore.DebugLevel)
 	term := new(int64)
 	s := zap.New(core, zap.WithFatalHook(countHook{term}), zap.WithPanicHook(countHook{term})).Sugar()
-	n := rapid.IntRange(0, 5).Draw(t, "nArgs")
+	n := rapid.SampledFrom([]int{0, 1, 1, 1, 2, 3, 4, 5}).Draw(t, "nArgs")
 	args := make([]any, n)
 	for i := range args {
 		args[i] = genFmtArg(t)
